@@ -87,6 +87,8 @@ type GenSpec struct {
 	// Canon is the canonical pattern list of the current input version (for the reference
 	// model); default: the world's patterns.
 	Canon []string `json:"canon,omitempty"`
+	// Spec is the layout spec in effect for this gen (for the independent models).
+	Spec *LSpec `json:"spec,omitempty"`
 	// Expect is what the history's generator knows about the outcome from the spec alone:
 	// "fail" (some selected converter is defective), "ok", "help", "usage", "version" or "".
 	Expect string `json:"expect,omitempty"`
